@@ -638,8 +638,7 @@ class Engine:
             elif isinstance(base.ty, TList):
                 i = self.coerce(lv.b, INT, st)
                 v = self.coerce(val, base.ty.elem, st)
-                n = Q.Length(base.t)
-                nb = SVal(Q.Concat(Q.Extract(base.t, 0, i.t), Q.Unit(v.t), Q.Extract(base.t, i.t + 1, n - i.t - 1)), base.ty)
+                nb = SVal(Q.Update(base.t, i.t, v.t), base.ty)
             else:
                 raise OutsideSubset(f"subscript store into {base.ty}")
             if optty is not None:
@@ -783,6 +782,12 @@ class Engine:
         if not node.keys:
             yield st, Empty("dict")
             return
+        if all(isinstance(k, ast.Constant) for k in node.keys) and all(isinstance(v, ast.Constant) for v in node.values):
+            # a literal dict of constants: an opaque constant named after its content
+            import hashlib
+            h = hashlib.sha1(ast.dump(node).encode()).hexdigest()[:10]
+            yield st, SVal(z3.Const("dictlit!" + h, self.U.U), OPAQUE)
+            return
         raise OutsideSubset("dict display")
 
     def ev_JoinedStr(self, node, st):
@@ -887,7 +892,7 @@ class Engine:
                 yield s, SVal(z3.Not(self.truthy(v, s)), BOOL)
             elif isinstance(node.op, ast.USub):
                 v = self.coerce(v, INT, s)
-                yield s, SVal(-v.t, INT)
+                yield s, SVal(z3.simplify(-v.t), INT)
             else:
                 raise OutsideSubset("unary op")
 
@@ -1456,7 +1461,7 @@ def _spec_implies(a, b):
     raise RuntimeError
 
 
-SPEC_BUILTINS = {"utf8": "utf8", "decode_utf8": "decode_utf8", "decodable": "decodable", "raised_by": "raised_by", "exc_code": "exc_code", "implies": "implies", "old": "old", "ANY": "ANY", "store": "store", "fresh_obj": "fresh_obj",
+SPEC_BUILTINS = {"list_set": "list_set", "utf8": "utf8", "decode_utf8": "decode_utf8", "decodable": "decodable", "raised_by": "raised_by", "exc_code": "exc_code", "implies": "implies", "old": "old", "ANY": "ANY", "store": "store", "fresh_obj": "fresh_obj",
                  "raised": "raised", "iff": "iff", "unchanged": "unchanged", "ite": "ite", "seq_index_of": "seq_index_of",
                  "distinct": "distinct", "field_unchanged_except": "field_unchanged_except", "none": "none",
                  "some": "some", "typed_empty": "typed_empty", "dom": "dom", "lookup": "lookup", "sorted_of": "sorted_of",
